@@ -317,7 +317,7 @@ func (ft *fnTrans) instr(ins ssa.Instruction, h *Heap, reach string) {
 		sl := x.Type().Underlying().(*types.Slice)
 		r := ft.newRef(h, "alloc")
 		c := vc.compElems(sl.Elem())
-		vc.set(h, c, sto(vc.get(*h, c), r, fmt.Sprintf("((as const (Array Int %s)) %s)", vc.sorts.sortOf(sl.Elem()), vc.sorts.zero(sl.Elem(), vc.lits))))
+		vc.set(h, c, sto(vc.get(*h, c), r, vc.zeroArray(vc.sorts.sortOf(sl.Elem()), vc.sorts.zero(sl.Elem(), vc.lits))))
 		ln, cp := ft.val(x.Len), ft.val(x.Cap)
 		ft.safe("makeslice", reach, and("(<= 0 "+ln+")", "(<= "+ln+" "+cp+")"), "makeslice: len out of range", x.Pos())
 		ft.vals[x] = vc.define(x.Name(), "Slice", fmt.Sprintf("(mk-slice %s 0 %s %s)", r, ln, cp))
@@ -389,7 +389,7 @@ func (ft *fnTrans) alloc(x *ssa.Alloc, h *Heap) {
 		}
 	case *types.Array:
 		c := vc.compElems(u.Elem())
-		vc.set(h, c, sto(vc.get(*h, c), r, fmt.Sprintf("((as const (Array Int %s)) %s)", vc.sorts.sortOf(u.Elem()), vc.sorts.zero(u.Elem(), vc.lits))))
+		vc.set(h, c, sto(vc.get(*h, c), r, vc.zeroArray(vc.sorts.sortOf(u.Elem()), vc.sorts.zero(u.Elem(), vc.lits))))
 	default:
 		c := vc.compCell(elem)
 		vc.set(h, c, sto(vc.get(*h, c), r, vc.sorts.zero(elem, vc.lits)))
